@@ -27,3 +27,6 @@ Definition esize32 (params : list (Z * Z)) (c : nat) (s : nat) : nat :=
 Definition shrinkf32 (params : list (Z * Z)) (c : nat) (r : nat) : nat :=
   let '(fb, ob) := nth c params (1065353216, 0) in
   to_usize (floorf (divf (subf (f32_of_Z (Z.of_nat r)) (b32_of_bits ob)) (b32_of_bits fb))).
+
+(* solution_quality / combined_quality of solution_score.rs: (num as f32) / (den as f32), as a bit pattern *)
+Definition quality_bits (num den : Z) : Z := bits_of_b32 (divf (f32_of_Z num) (f32_of_Z den)).
